@@ -35,10 +35,16 @@ def run(ctx):
     ctx.rule("R15-8", "source / scripts / functions leave no residue in the shell when they fail: in the interpreter entry "
                       "points (run_script, run_lines, try_run_func, source) every `field += k` on the shell is matched by "
                       "`field -= k` on EVERY path to a return, the early error returns included")
+    ctx.rule("R15-10", "`source FILE` always runs FILE, a call of a defined function always runs its body: in the source builtin "
+                       "every path to a return goes through run_script except the one taken when no file name was given "
+                       "(a test of the argument count); in try_run_func every path on which the function was found goes "
+                       "through run_lines - no refusal based on shell state (a `being sourced` / depth / cache test "
+                       "makes `source` skip a file the user named)")
     ctx.rule("R15-9", "a function defined again replaces the earlier definition: Shell::set_func stores with an unconditional "
                       "HashMap::insert on every path (not entry().or_insert.., not behind a contains_key test)")
     for crate in ctx.crates:
         overwrite_rule(ctx, crate, "R15-9", "shell::Shell::set_func", "funcs")
+        always_runs_rule(ctx, crate)
         pairing_rule(ctx, crate)
         accumulator_rule(ctx, crate)
         from .. import editlist
@@ -451,3 +457,63 @@ def overwrite_rule(ctx, crate, rule, path, field):
            key="%s|%s|overwrite" % (rule, path), where=b.loc((soft or [(0, "")])[0][0]), crate=crate.kind,
            detail=None if ok else "%s: an existing entry is kept - a second definition under the same name is silently ignored" %
            (", ".join(sorted({x[1] for x in soft})) or "no unconditional insert"))
+
+
+def always_runs_rule(ctx, crate):
+    b = crate.fn("builtins::source::run")
+    if not ctx.require(b is not None, "R15-10", "R15-10|anchor", "builtins::source::run not found"):
+        return
+    ctx.analysed(b)
+    runs = {bb for bb, t, c in b.calls() if c.endswith("scripting::run_script")}
+    if not ctx.require(bool(runs), "R15-10", "R15-10|%s|runner" % b.path, "source does not call run_script", b.path):
+        return
+    # blocks from which the runner can still be reached
+    can = set(runs)
+    changed = True
+    while changed:
+        changed = False
+        for x in b.reachable:
+            if x not in can and any(y in can for y in b.succs[x]):
+                can.add(x)
+                changed = True
+    rets = {bb for bb in b.reachable if b.term(bb)["k"] == "return"}
+    # the only admissible way past the runner: the argument-count test
+    bad = []
+    seen, todo = set(), [0]
+    while todo:
+        x = todo.pop()
+        if x in seen or x in runs:
+            continue
+        seen.add(x)
+        edges = {tgt: (atom, val) for tgt, atom, val in b.switch_edges(x)}
+        for y in b.succs[x]:
+            if x in can and y not in can:
+                atom = edges.get(y, (None, None))[0]
+                is_argc = atom is not None and any(sub[0] == "call" and last_seg(sub[1]) in ("len", "is_empty", "get", "first")
+                                                   for sub in mir.subexprs(b.expand_vars(strip_sites(atom)))) and \
+                    "tokens_to_args" in render(b.expand_vars(strip_sites(atom)))
+                if not is_argc:
+                    bad.append((x, render(strip_sites(atom))[:70] if atom is not None else "?"))
+                continue
+            todo.append(y)
+    ok = not bad
+    ctx.ob("R15-10", b.path, "source reaches run_script on every path except `no file specified`", ok,
+           key="R15-10|%s|always-runs" % b.path, where=b.loc((bad or [(0, "")])[0][0]), crate=crate.kind,
+           detail=None if ok else "source returns without running the file under a test that is not the argument count (%s): a "
+           "file the user named is skipped, its functions and variables are missing afterwards" % "; ".join(x[1] for x in bad))
+    f = crate.fn("core::try_run_func") or (crate.find("try_run_func") or [None])[0]
+    if ctx.require(f is not None, "R15-10", "R15-10|anchor2", "try_run_func not found"):
+        ctx.analysed(f)
+        runs_f = {bb for bb, t, c in f.calls() if c.endswith("scripting::run_lines")}
+        found = set()
+        for x in sorted(f.reachable):
+            for tgt, atom, val in f.switch_edges(x):
+                a = strip_sites(atom)
+                if a[0] == "discr" and val == "Some" and any(sub[0] == "call" and last_seg(sub[1]) in ("get_func", "get")
+                                                              for sub in mir.subexprs(a)):
+                    found.add(tgt)
+        rets_f = {bb for bb in f.reachable if f.term(bb)["k"] == "return"}
+        ok2 = bool(runs_f) and bool(found) and all(flow.must_pass(f, t_, runs_f, rets_f) for t_ in found)
+        ctx.ob("R15-10", f.path, "a function that was found is run on every path (run_lines)", ok2,
+               key="R15-10|%s|always-runs" % f.path, crate=crate.kind,
+               detail=None if ok2 else "some path returns after the lookup succeeded without running the body")
